@@ -9,7 +9,7 @@ for f in sorted(glob.glob(d+'/*/*.json')):
     if 'not_replayed' in rp:
         w='not replayed: '+rp['not_replayed'][:90].replace('\n',' ')
     else:
-        e,o=rp.get('expected_effect_kinds',[]),rp.get('observed_effect_kinds',[])
+        e,o=rp.get('expected_effect_kinds') or [],rp.get('observed_effect_kinds') or []
         i=0
         while i<len(e) and i<len(o) and e[i]==o[i]: i+=1
         w='diverges at %d: want %s got %s'%(i,e[i] if i<len(e) else 'END',o[i] if i<len(o) else 'END')
